@@ -532,10 +532,18 @@ func ShadowEdit(m *Module, r interface{ Intn(int) int }, maxPerFunc int) (undo f
 		}
 		var locals []*VarDecl
 		WalkStmts(f.Body, func(s Stmt) {
-			if vd, ok := s.(*VarDecl); ok && vd.V.Alias == nil {
-				locals = append(locals, vd)
+			if vd, ok := s.(*VarDecl); ok {
+				// a name the function already declares itself (ShadowOuterNames may have put a module-scope name
+				// on a nested local) counts as mentioned: it is not free for another declaration of the function
+				refCount[vd.V.Name] += 2
+				if vd.V.Alias == nil {
+					locals = append(locals, vd)
+				}
 			}
 		}, note)
+		for _, p := range f.Params {
+			refCount[p.Name] += 2
+		}
 		for k := 0; k < 3; k++ {
 			if f.WG[k] != nil {
 				WalkExpr(f.WG[k], note)
@@ -672,4 +680,122 @@ func ReuseLocalNames(m *Module) int {
 		}
 	}
 	return n
+}
+
+// ShadowOuterNames renames locals declared in nested scopes to names that are visible there from outside - an outer
+// local or parameter of the function, or a module-scope constant / variable / override / function - whenever that is
+// meaning-neutral: the outer name is not mentioned anywhere in the scope of the renamed local, and nothing in that scope
+// (nor a sibling in the same scope) declares the name again. The initialiser of the renamed local is outside its scope
+// and may well mention the outer entity (`let K = K + 1;`). Unlike ShadowEdit the function as a whole DOES use the
+// shadowed entity, before the block, in the initialiser, or after the block ends. Returns an undo function and the
+// number of renames.
+func ShadowOuterNames(m *Module, r interface{ Intn(int) int }, maxPerFunc int) (undo func(), n int) {
+	type sv struct {
+		v    *Var
+		name string
+	}
+	var saved []sv
+	var modNames []string
+	for i := range m.Decls {
+		d := &m.Decls[i]
+		switch {
+		case d.Var != nil:
+			modNames = append(modNames, d.Var.Name)
+		case d.Func != nil && d.Func.Stage == "":
+			modNames = append(modNames, d.Func.Name)
+		}
+	}
+	// variables that have read-only views (loop counters) keep their names
+	viewed := map[*Var]bool{}
+	WalkModule(m, nil, func(e Expr) {
+		if x, ok := e.(*Ref); ok && x.V.Alias != nil {
+			viewed[x.V.Alias] = true
+			viewed[x.V] = true
+		}
+	})
+	mentions := func(ss []Stmt, name string) bool {
+		found := false
+		WalkStmts(ss, func(s Stmt) {
+			if vd, ok := s.(*VarDecl); ok && vd.V.Name == name {
+				found = true // declared again somewhere inside
+			}
+		}, func(e Expr) {
+			switch x := e.(type) {
+			case *Ref:
+				if x.V.Name == name {
+					found = true
+				}
+			case *CallE:
+				if x.F.Name == name {
+					found = true
+				}
+			}
+		})
+		return found
+	}
+	for i := range m.Decls {
+		f := m.Decls[i].Func
+		if f == nil {
+			continue
+		}
+		done := 0
+		var walk func(list []Stmt, outer []string, depth int, frozen bool)
+		walk = func(list []Stmt, outer []string, depth int, frozen bool) {
+			var here []string // names declared directly in this list so far
+			for si, s := range list {
+				if vd, ok := s.(*VarDecl); ok {
+					if depth > 0 && !frozen && done < maxPerFunc && vd.V.Alias == nil && !viewed[vd.V] && r.Intn(3) == 0 {
+						cands := append(append([]string{}, outer...), modNames...)
+						for tries := 0; tries < 4 && len(cands) > 0; tries++ {
+							x := cands[r.Intn(len(cands))]
+							if x == vd.V.Name || mentions(list[si+1:], x) {
+								continue
+							}
+							sibling := false
+							for _, o := range list {
+								if od, ok := o.(*VarDecl); ok && od != vd && od.V.Name == x {
+									sibling = true
+								}
+							}
+							if sibling {
+								continue
+							}
+							saved = append(saved, sv{vd.V, vd.V.Name})
+							vd.V.Name = x
+							done++
+							n++
+							break
+						}
+					}
+					here = append(here, vd.V.Name)
+				}
+				inner := append(append([]string{}, outer...), here...)
+				if fs, ok := s.(*For); ok && fs.Init != nil {
+					if vd, ok := fs.Init.(*VarDecl); ok {
+						inner = append(inner, vd.V.Name)
+					}
+				}
+				if lp, ok := s.(*Loop); ok {
+					// the continuing block sees the body's declarations: treat body + continuing as one scope for naming
+					// (so the direct children of the body keep their names)
+					walk(lp.Body, inner, depth+1, len(lp.Continuing) > 0 || lp.BreakIf != nil)
+					walk(lp.Continuing, inner, depth+1, true)
+					continue
+				}
+				for _, nb := range StmtBlocks(s) {
+					walk(*nb, inner, depth+1, false)
+				}
+			}
+		}
+		var params []string
+		for _, p := range f.Params {
+			params = append(params, p.Name)
+		}
+		walk(f.Body, params, 0, false)
+	}
+	return func() {
+		for k := len(saved) - 1; k >= 0; k-- {
+			saved[k].v.Name = saved[k].name
+		}
+	}, n
 }
